@@ -81,6 +81,10 @@ pub enum Op {
     Verify,
     Reopen,
     Ingest { ents: Vec<Ent> },
+    /// Ingest once more a table with exactly the entries and timestamps of the ingest at operation
+    /// `of` (same digest).  Only in the profile `tree-verify`, which is judged on the books and
+    /// the verifier, not on reads.
+    Reingest { of: usize },
 }
 
 impl Op {
@@ -100,6 +104,7 @@ impl Op {
             Op::Verify => "verify",
             Op::Reopen => "reopen",
             Op::Ingest { .. } => "ingest",
+            Op::Reingest { .. } => "ingest",
         }
     }
 
@@ -310,6 +315,20 @@ impl Profile {
                 max_ops: 14,
                 scans: false,
                 verify: false,
+                ..base
+            },
+            // Verifier passes between transactions that sit in the live manifest: a middling
+            // rollover ratio, many verifier passes, compactions that re-create earlier tables.
+            "tree-verify" => Profile {
+                name: "tree-verify",
+                mode: Mode::Tree,
+                min_ops: 30,
+                max_ops: 110,
+                scans: false,
+                reopen: false,
+                verify_boost: 8,
+                gc_variety: false,
+                force_opts: vec![("--mani-log-rollover-ratio", "3"), ("--sst-target-file-size", "4096"), ("--sst-minimum-file-size", "2048")],
                 ..base
             },
             "kvs-stall" => Profile {
@@ -718,7 +737,12 @@ pub fn generate(seed: u64, p: &Profile) -> History {
                     })
                     .collect();
                 if p.mode == Mode::Tree {
-                    Op::Ingest { ents }
+                    let earlier: Vec<usize> = ops.iter().enumerate().filter(|(_, o)| matches!(o, Op::Ingest { .. })).map(|(i, _)| i).collect();
+                    if p.name == "tree-verify" && !earlier.is_empty() && rng.chance(1, 3) {
+                        Op::Reingest { of: *rng.pick(&earlier) }
+                    } else {
+                        Op::Ingest { ents }
+                    }
                 } else {
                     Op::Batch { ents }
                 }
